@@ -78,6 +78,17 @@ def run(ctx):
                                                           and 'starting_sequence_number' not in fmt_sym(b, l[2])) or
                                                          (l[1] in ('le', 'lt') and 'starting_sequence_number' in fmt_sym(b, l[2]) and 'sequence_number' in fmt_sym(b, l[3])
                                                           and 'starting_sequence_number' not in fmt_sym(b, l[3])))]
+            # what is handed back becomes the receiver's last_received_sequence_number: it must be the number of the last chunk
+            # accepted (first chunk's own sequence number + count - 1), not a function of the expected start
+            val = fmt_sym(b, F.sym_operand(b.stmts(okb)[oks[0][1]][2][4][0]))
+            FIRST = r'Try::branch\(MessageChunk::chunk_info\(&\*?(?:Try::branch\(Option::ok_or\(slice::first\(&\(\*chunks\(_\d+\)\)\), [^)]*\)\)@Continue\.0|.*chunks\(_\d+\)\)?\[(?:0|_\d+)\]), &\(\*secure_channel\(_\d+\)\)\)\)@Continue\.0\.sequence_header\.sequence_number'
+            LEN = r'\(len\(\(\*chunks\(_\d+\)\)\) as u32\)'
+            if re.match(r'^num::wrapping_sub\(num::wrapping_add\(%s, %s\), 1\)$' % (FIRST, LEN), val) or re.match(r'^num::wrapping_add\(%s, num::wrapping_sub\(%s, 1\)\)$' % (FIRST, LEN), val) \
+                    or re.match(r'^num::wrapping_add\(%s, \(%s Sub(WithOverflow)? 1\)(\.0)?\)$' % (FIRST, LEN), val):
+                r.ok(rule, 'validate_chunks:last-accepted', 'the value handed back is first chunk sequence number + count - 1', loc=b.loc)
+            else:
+                r.fail(rule, 'validate_chunks:last-accepted', 'validate_chunks hands back %s, not the sequence number of the last chunk it accepted: the receiver\'s high-water mark stays '
+                       'behind after a gap and a replay of the accepted message is accepted again' % val[:160], loc=b.loc)
             if ge:
                 r.ok(rule, 'validate_chunks:not-below-start', 'Ok only when `%s`' % fmt_lit(b, ge[0])[:140], loc=b.loc)
             else:
